@@ -3,7 +3,8 @@
   `np.where` on arrays, `scipy.integrate.cumulative_trapezoid`, `np.sum` — into list functions (`AeicModel/Vec.lean`).  Here
   the generated definitions for the two mass updates of `BADA/fuel_burn_base.py` (`update_mass_vector`,
   `update_mass_vector_backward`, each with an array or one scalar of segment lengths) are proved equal, over ℝ, to the
-  hand-written model (`Bada.massFwd`, `Bada.massBwd` applied to `burnPerMetre ∘ sgr`).  Helper lemmas only.
+  hand-written model (`Bada.massFwd`, `Bada.massBwd` applied to `burnPerMetre ∘ sgr`) for every non-empty mass array (on an
+  empty one the source raises `IndexError` at `mass[0]` / `mass[-1]`).  Helper lemmas only.
 -/
 import AeicProofs.RealInst
 import AeicProofs.Lemmas.C19Lists
@@ -40,27 +41,32 @@ theorem burn_fun : (fun e : ℝ => if e < (Lit.dec 1 0 : ℝ) then (Lit.dec 0 0 
   funext e; rfl
 
 /-- `update_mass_vector` with an array of segment lengths -/
-theorem mass_update_fwd (mass sgr dx : List ℝ) :
+theorem mass_update_fwd (mass sgr dx : List ℝ) (hm : mass ≠ []) :
     Kern.mass_update_fwd mass sgr dx = massFwd (headD mass) (sgr.map burnPerMetre) dx := by
-  simp only [Kern.mass_update_fwd, Vec.setTail, Vec.cumtrapz, Vec.head0, trapTerms_eq, cumsumFrom_eq, burn_fun, massFwd, headD]
+  obtain ⟨m0, ms, rfl⟩ := List.exists_cons_of_ne_nil hm
+  simp only [Kern.mass_update_fwd, Vec.setTail, Vec.cumtrapz, Vec.head0, trapTerms_eq, cumsumFrom_eq, burn_fun, massFwd, headD,
+    List.headD_cons]
 
 /-- `update_mass_vector` with one scalar segment length (broadcast by scipy) -/
-theorem mass_update_fwd_scalar (mass sgr : List ℝ) (d : ℝ) :
+theorem mass_update_fwd_scalar (mass sgr : List ℝ) (d : ℝ) (hm : mass ≠ []) :
     Kern.mass_update_fwd_scalar_dx mass sgr d
       = massFwd (headD mass) (sgr.map burnPerMetre) (List.replicate (sgr.length - 1) d) := by
+  obtain ⟨m0, ms, rfl⟩ := List.exists_cons_of_ne_nil hm
   simp only [Kern.mass_update_fwd_scalar_dx, Vec.setTail, Vec.cumtrapzS, Vec.cumtrapz, Vec.bcast, Vec.head0, trapTerms_eq,
-    cumsumFrom_eq, burn_fun, massFwd, headD, List.length_map]
+    cumsumFrom_eq, burn_fun, massFwd, headD, List.length_map, List.headD_cons]
 
 /-- `update_mass_vector_backward` with an array of segment lengths -/
-theorem mass_update_bwd (mass sgr dx : List ℝ) :
+theorem mass_update_bwd (mass sgr dx : List ℝ) (hm : mass ≠ []) :
     Kern.mass_update_bwd mass sgr dx = massBwd (lastD mass) (sgr.map burnPerMetre) dx := by
+  obtain ⟨m0, ms, rfl⟩ := List.exists_cons_of_ne_nil hm
   simp only [Kern.mass_update_bwd, Vec.setInit, Vec.cumtrapz, Vec.last0, trapTerms_eq, cumsumFrom_eq, burn_fun, massBwd, lastD,
     List.map_reverse]
 
 /-- `update_mass_vector_backward` with one scalar segment length (`np.broadcast_to` to `len(mass) − 1`) -/
-theorem mass_update_bwd_scalar (mass sgr : List ℝ) (d : ℝ) :
+theorem mass_update_bwd_scalar (mass sgr : List ℝ) (d : ℝ) (hm : mass ≠ []) :
     Kern.mass_update_bwd_scalar_dx mass sgr d
       = massBwd (lastD mass) (sgr.map burnPerMetre) (List.replicate (mass.length - 1) d) := by
+  obtain ⟨m0, ms, rfl⟩ := List.exists_cons_of_ne_nil hm
   simp only [Kern.mass_update_bwd_scalar_dx, Vec.setInit, Vec.cumtrapz, Vec.bcast, Vec.last0, trapTerms_eq, cumsumFrom_eq,
     burn_fun, massBwd, lastD, List.map_reverse, List.reverse_replicate]
 
